@@ -9,7 +9,7 @@
 """
 import os, struct, sys
 
-from .pdfwriter import Name, Ref
+from .pdfwriter import Name, Ref, Stream
 from .canon import canon
 
 HERE = os.path.dirname(os.path.abspath(__file__))
@@ -94,6 +94,14 @@ def _un(b, i):
             v, i = _un(b, i)
             d[k.decode("latin-1")] = v
         return d, i + 1
+    if c == b"s":
+        d, i = _un(b, i)
+        if b[i:i + 1] == b"?":
+            return Stream(d, b"", d.get("Length")), i + 2
+        j = b.index(b";", i)
+        d = dict(d)
+        ln = d.pop("Length", None)
+        return Stream(d, bytes.fromhex(b[i:j].decode()), ln), j + 1
     raise ValueError("bad canon at %d" % i)
 
 
@@ -183,7 +191,7 @@ def equiv(a, b, objs, ty=None, S=None, depth=0):
 
 # ---------------------------------------------------------------------------------------------- generators
 
-MODELLED_HAND = {"Date": 0, "Rectangle": 1, "Matrix": 2, "Action": 3, "NameTree<Primitive>": 4, "PagesRc": 5}
+MODELLED_HAND = {"Date": 0, "Rectangle": 1, "Matrix": 2, "Action": 3, "NameTree<Primitive>": 4, "PagesRc": 5, "Encoding": 6}
 
 
 class Gen:
